@@ -145,6 +145,18 @@ func bezierPart(c *vlib.Ctx) (int64, int64, any) {
 	for deg := 1; deg <= 4; deg++ {
 		rb(nil, deg)
 	}
+	if c.Thorough() {
+		// thorough: also every control polygon of degree 1..3 on the 4x4 grid
+		g3 = nil
+		for x := 0; x < 4; x++ {
+			for y := 0; y < 4; y++ {
+				g3 = append(g3, v2.Vec{X: float64(x), Y: float64(y)})
+			}
+		}
+		for deg := 1; deg <= 3; deg++ {
+			rb(nil, deg)
+		}
+	}
 	if !c.Thorough() {
 		var q [][]v2.Vec // quick: all of degree 1..3 and every 6th of degree 4
 		for i, cp := range cps {
